@@ -1,7 +1,8 @@
 """C06 — Operator string stays a consistent periodic world-line configuration."""
+from checks import full_step
 from checks import extra_audits
-LEAN_TARGETS = ["QmcProofs.Refinement", "QmcProps.C06", "drv_c06"]
-BINS = ["c06"]
+LEAN_TARGETS = ["drv_step", "QmcProofs.Refinement", "QmcProps.C06", "drv_c06"]
+BINS = ["fullstep", "c06"]
 
 THEOREMS = [
     "diagSweepB_sound",
@@ -53,4 +54,5 @@ def main(ck):
         ck.correspond("raw-swap-unequal-cutoffs", "drv_c06", cases)
         cases = ck.harness("c06", ["f12"])
         ck.correspond("rvb-zero-word", "drv_c06", cases)
+    full_step.run(ck)
     return ck.finish(RULE)
